@@ -32,6 +32,9 @@ var instrumentDirs = map[string]func(name string) bool{
 	"settlement":  func(string) bool { return true },
 	"combination": func(string) bool { return true },
 	"table":       func(n string) bool { return n == "native_backend.go" },
+	// world S over generated scheduling points (math/rand stays: the run
+	// seeds it, as in the hand-placed variant)
+	"seat_manager": func(string) bool { return true },
 }
 
 const importPath = "github.com/weedbox/pokerface/verifyield"
@@ -503,7 +506,7 @@ func instrument(rel string, src []byte, maps map[string]bool, locks map[string]s
 	// math/rand goes behind a seam: the copy draws from a fixed stream, so
 	// that a shuffle costs the same statements in every execution
 	for _, im := range f.Imports {
-		if im.Path.Value == `"math/rand"` {
+		if im.Path.Value == `"math/rand"` && filepath.Dir(rel) != "seat_manager" {
 			name := ""
 			if im.Name == nil {
 				name = "rand "
